@@ -7,6 +7,7 @@ import time
 sys.path.insert(0, os.path.dirname(os.path.dirname(os.path.abspath(__file__))))
 import z3
 from pyvc.driver import run, pmap
+import shadow_common as sc
 from spec import cisco_ref, sets
 
 
@@ -148,7 +149,8 @@ def check_acl(arg):
 def check_many(arg):
     """several multi-port entries in one container: every one is split where it stood, nothing else moves or disappears"""
     import cisco_acl
-    kinds, container = arg
+    kinds, container = arg[:2]
+    numbering = arg[2] if len(arg) > 2 else "none"
     lines, want = [], []
     for i, k in enumerate(kinds):
         if k == "m":        # two source ports
@@ -163,6 +165,21 @@ def check_many(arg):
         else:
             lines.append(f"remark {'= ' if i == 0 else ''}note {i}")
             want.append(lines[-1])
+    if numbering != "none":
+        # the position in the list is what counts, whatever the sequence numbers say: descending numbers, or numbered
+        # entries followed by an entry appended without a number
+        n_ = len(lines)
+        seqs = [str(10 * (n_ - i)) for i in range(n_)] if numbering == "descending" else [str(10 * (i + 1)) for i in range(n_ - 1)] + [""]
+        step = iter(seqs)
+        cur, out_l, out_w, k = None, [], [], 0
+        pieces = [2 if kd == "m" else 3 if kd == "M" else 1 for kd in kinds]
+        for l_, pc in zip(lines, pieces):
+            sq = next(step)
+            out_l.append(f"{sq} {l_}".strip())
+            for _ in range(pc):
+                out_w.append(f"{sq} {want[k]}".strip())
+                k += 1
+        lines, want = out_l, out_w
     if container == "acegroup":
         box = cisco_acl.AceGroup("\n".join(lines), platform="ios", port_nr=True)
     else:
@@ -175,10 +192,40 @@ def check_many(arg):
         flat.extend(o.items if isinstance(o, cisco_acl.AceGroup) else [o])
     got = [o.line for o in flat]
     if got != want:
-        return [dict(key=f"bounded/{container}.ungroup_ports:many", what=f"after splitting {lines}: {got}, expected {want}", inputs=dict(lines=lines, container=container),
+        return [dict(key=f"bounded/{container}.ungroup_ports:many" + ("" if numbering == "none" else f":{numbering}"), what=f"after splitting {lines}: {got}, expected {want}", inputs=dict(lines=lines, container=container),
                      cmd=("import sys; sys.path.insert(0, 'props'); import C19\n"
                           f"fails, _ = C19.check_many({arg!r})\nprint([f['what'] for f in fails]); sys.exit(1 if fails else 0)\n"))], 1
     return [], 1
+
+
+def check_group_fields(arg):
+    """pieces keep what the text does not show: members of referenced address groups, notes, numeric switches, sequence"""
+    import cisco_acl
+    platform, sp, dp = arg
+    g = "object-group" if platform == "ios" else "addrgroup"
+    line = " ".join(f"10 permit tcp {g} G1 {sp} {g} G3 {dp} log".split())
+    fails = []
+
+    def bad(kind, what):
+        fails.append(dict(key=f"bounded/Ace.ungroup_ports:hidden-fields:{kind}", what=what, inputs=dict(line=line, platform=platform),
+                          cmd=("import sys; sys.path.insert(0, 'props'); import C19\n"
+                               f"fails, _ = C19.check_group_fields({arg!r})\nprint([f['what'] for f in fails]); sys.exit(1 if fails else 0)\n")))
+    try:
+        ace = sc.make_ace(line, platform, note="keep me", port_nr=True)
+    except ValueError:
+        return [], 0        # several ports in one entry are not NX-OS syntax
+    want_src = sorted(m.line for m in ace.srcaddr.items)
+    want_dst = sorted(m.line for m in ace.dstaddr.items)
+    parts = ace.ungroup_ports()
+    for p_ in parts:
+        if sorted(m.line for m in p_.srcaddr.items) != want_src or sorted(m.line for m in p_.dstaddr.items) != want_dst:
+            bad("members", f"piece {p_.line!r} references its groups with members {[m.line for m in p_.srcaddr.items]} / {[m.line for m in p_.dstaddr.items]}, "
+                           f"the entry had {want_src} / {want_dst}")
+            break
+        if p_.note != "keep me" or p_.port_nr is not True or p_.sequence != 10 or p_.platform != platform:
+            bad("attributes", f"piece {p_.line!r}: note={p_.note!r} port_nr={p_.port_nr} sequence={p_.sequence} platform={p_.platform}")
+            break
+    return fails, 1
 
 
 def main(chk):
@@ -207,6 +254,7 @@ def main(chk):
     t0 = time.time()
     import itertools
     cases = [(ks, c) for n in range(1, 6) for ks in itertools.product("mMsr", repeat=n) for c in ("acl", "acl-grouped", "acegroup")]
+    cases += [(ks, c, nb) for n in range(2, 5) for ks in itertools.product("mMs", repeat=n) for c in ("acl", "acegroup") for nb in ("descending", "last-unnumbered")]
     res = pmap(check_many, cases)
     viol = 0
     for fails, _ in res:
@@ -214,8 +262,20 @@ def main(chk):
             viol += 1
             chk.finding(f["key"], f["what"], inputs=f["inputs"], cmd=f.get("cmd"), key=f["key"])
     chk.add_bounded("Acl/AceGroup.ungroup_ports with several multi-port entries: each split where it stood, nothing lost or moved", len(cases), len(cases),
-                    "all lists of <= 5 items over {2-port entry, 3-port entry, single-port entry, remark} in a flat ACL, a grouped ACL and an AceGroup",
+                    "all lists of <= 5 items over {2-port entry, 3-port entry, single-port entry, remark} in a flat ACL, a grouped ACL and an AceGroup; "
+                    "lists of 2..4 entries with descending sequence numbers or a last entry without a number",
                     viol, time.time() - t0, [list(cases[77])], exhaustive=True)
+    t0 = time.time()
+    cases = [(pl, sp_, dp_) for pl in ("ios", "nxos") for sp_ in ("", "eq 80", "eq 80 443", "neq 1 2 3") for dp_ in ("", "eq 22 23", "range 20 21", "eq 1")]
+    res = pmap(check_group_fields, cases)
+    viol = 0
+    for fails, _ in res:
+        for f in fails:
+            viol += 1
+            chk.finding(f["key"], f["what"], inputs=f["inputs"], cmd=f.get("cmd"), key=f["key"])
+    chk.add_bounded("Ace.ungroup_ports: pieces keep group members, note, switches, sequence, platform", len(cases), sum(d for _, d in res),
+                    "entries with address groups on both sides (members attached) x 4 source x 4 destination port expressions x 2 platforms", viol, time.time() - t0,
+                    [list(cases[2])], exhaustive=True)
     chk.assumptions += ["Ace.ungroup_ports is object-graph code (copy(), items setter): its contract is checked natively, not proved"]
     return chk.finish("other",
                       "Deductive: lemma L19.replace (replacing a rule by adjacent same-action rules whose union is the rule keeps every first-match decision). Bounded "
